@@ -962,6 +962,11 @@ class Ranges:
             cur = st.opt.get(q) if q else None
             if cur in ("Ok", "Err"):
                 optv = cur
+            if q and name in ("map_err", "inspect", "inspect_err"):
+                # the Ok payload is untouched
+                for kk, vv in st.iv.items():
+                    if kk.startswith(q + "@Ok.0"):
+                        sub[kk[len(q):]] = vv
         elif re.search(r"result::Result::ok$", cp):
             cur = st.opt.get(argpath(0) or "")
             optv = {"Ok": "Some", "Err": "None"}.get(cur)
